@@ -493,7 +493,7 @@ fn targeted(rng: &mut Rng, cases: &mut Vec<String>) {
 pub fn build_cases(model_txt: &str, rng: &mut Rng, thorough: bool, cases: &mut Vec<String>) {
     targeted(rng, cases);
     let dec_names = all_dec_names();
-    let cap = if thorough { 10 } else { 5 };
+    let cap = if thorough { 8 } else { 5 };
     let mut seeds: Vec<(String, Vec<u8>)> = Vec::new();
     for line in model_txt.lines() {
         let t: Vec<&str> = line.split_whitespace().collect();
